@@ -40,6 +40,12 @@ class Prop(BaseProp):
                 b = rng.choice([2.0, 10.0, 0.5, 7.25, 1.5])
                 aux = [genvals.enc_leaf(b, ty.leaf().width)]
             out.append(Case('c%d' % len(out), ty, fn, [a], aux, tag='dom'))
+        # tanh far out (the true derivative parts underflow): flat types return zeros, nested types are the open finding tanh-nested-intermediate-overflow
+        for j, ty in enumerate(tys):
+            if ty.leaf().width == 64 and (ty.depth() > 1 or j % 3 == 0):
+                for x in (180.0, -400.0, 800.0)[: 3 if ty.depth() > 1 else 1]:
+                    a = genvals.gen_value(rng, ty, genvals.leaf_rand, re_leaf=lambda r, x=x: x)
+                    out.append(Case('L%d' % len(out), ty, 'tanh', [a], [], tag='large'))
         return out
 
     def oracle(self, case, impl):
